@@ -952,14 +952,15 @@ theorem entry_unique {ss : SS} (h : ss.Pairwise (fun a b => a.1 ≠ b.1)) {e1 e2
 
 theorem KeyOld.mono {c : Cfg} {chs chs' : CH} {eph eph' cd cd' : Nat} {k : Key} (h : KeyOld c chs eph cd k)
     (he : eph ≤ eph') (hc : cd ≤ cd')
-    (hch : ∀ ch ∈ chs', ch ∈ chs ∨ ∃ j, cd < j ∧ ch.2.1.cd = mkName c j) : KeyOld c chs' eph' cd' k := by
+    (hch : ∀ ch ∈ chs', (∃ ch0 ∈ chs, ch0.2.1.cd = ch.2.1.cd) ∨ ∃ j, cd < j ∧ ch.2.1.cd = mkName c j) :
+    KeyOld c chs' eph' cd' k := by
   refine ⟨fun ht => ?_, fun ht => ?_⟩
   · obtain ⟨j, hj, hk⟩ := h.1 ht
     exact ⟨j, Nat.le_trans hj he, hk⟩
   · obtain ⟨⟨j, hj, hk⟩, hn⟩ := h.2 ht
     refine ⟨⟨j, Nat.le_trans hj hc, hk⟩, fun ch hch' => ?_⟩
-    rcases hch ch hch' with hin | ⟨j', hj', hcd⟩
-    · exact hn ch hin
+    rcases hch ch hch' with ⟨ch0, hin, h0⟩ | ⟨j', hj', hcd⟩
+    · rw [← h0]; exact hn ch0 hin
     · intro heq
       rw [hcd, hk] at heq
       have := mkName_inj heq
@@ -1083,5 +1084,126 @@ theorem CI.hist_new {c R ss chs act eph cd H} (h : CI c R ss chs act eph cd H) {
       · exact absurd (hlt b hb hab.symm) (by simp only at hab'; omega)
       · rfl
   · intro call hcall; exact (h.actOk call hcall).mono (fun y hy => List.mem_append_left _ hy)
+
+
+theorem CI.key_mono {c R ss chs chs' act eph eph' cd cd' H} (h : CI c R ss chs act eph cd H)
+    (he : eph ≤ eph') (hc : cd ≤ cd')
+    (hch : ∀ ch ∈ chs', (∃ ch0 ∈ chs, ch0.2.1.cd = ch.2.1.cd) ∨ ∃ j, cd < j ∧ ch.2.1.cd = mkName c j)
+    (hok : ∀ ch ∈ chs', ∃ j, j ≤ cd' ∧ ch.2.1.cd = mkName c j)
+    (hd : chs'.Pairwise (fun a b => a.2.1.cd ≠ b.2.1.cd)) :
+    CI c R ss chs' act eph' cd' H :=
+  { h with
+    oldS := fun e he' k hk => (h.oldS e he' k hk).mono he hc hch
+    oldH := fun x hx => (h.oldH x hx).mono he hc hch
+    res := fun k hk => ⟨(h.res k hk).1.mono he hc hch, (h.res k hk).2⟩
+    chOk := hok
+    chDist := hd }
+
+theorem CI.chs_sublist {c R ss chs chs' act eph cd H} (h : CI c R ss chs act eph cd H)
+    (hs : chs'.Sublist chs) : CI c R ss chs' act eph cd H :=
+  h.key_mono (Nat.le_refl _) (Nat.le_refl _) (fun ch hch => Or.inl ⟨ch, hs.subset hch, rfl⟩)
+    (fun ch hch => h.chOk ch (hs.subset hch)) (h.chDist.sublist hs)
+
+/-- `send_challenge`: a challenge with freshly drawn challenge data. -/
+theorem CI.chs_add {c R ss chs act eph cd H} (h : CI c R ss chs act eph cd H) (na : NA) (rr : Option Rec) (d q : Nat) :
+    CI c R ss (chs ++ [(na, { cd := mkName c (cd + 1), remoteRec := rr }, d, q)]) act eph (cd + 1) H := by
+  refine h.key_mono (Nat.le_refl _) (Nat.le_succ _) ?_ ?_ ?_
+  · intro ch hch
+    rcases List.mem_append.1 hch with hch | hch
+    · exact Or.inl ⟨ch, hch, rfl⟩
+    · simp only [List.mem_singleton] at hch; subst hch
+      exact Or.inr ⟨cd + 1, Nat.lt_succ_self _, rfl⟩
+  · intro ch hch
+    rcases List.mem_append.1 hch with hch | hch
+    · obtain ⟨j, hj, hk⟩ := h.chOk ch hch
+      exact ⟨j, Nat.le_succ_of_le hj, hk⟩
+    · simp only [List.mem_singleton] at hch; subst hch
+      exact ⟨cd + 1, Nat.le_refl _, rfl⟩
+  · rw [List.pairwise_append]
+    refine ⟨h.chDist, List.pairwise_singleton _ _, fun a ha b hb => ?_⟩
+    simp only [List.mem_singleton] at hb; subst hb
+    obtain ⟨j, hj, hk⟩ := h.chOk a ha
+    intro heq
+    simp only [hk] at heq
+    have := mkName_inj heq
+    omega
+
+theorem chs_filter_ne {chs : CH} (hd : chs.Pairwise (fun a b => a.2.1.cd ≠ b.2.1.cd)) {na x : NA} {ch : Challenge}
+    {d q : Nat} (hf : chs.find? (·.1 == na) = some (x, ch, d, q)) :
+    ∀ a ∈ chs.filter (·.1 != na), a.2.1.cd ≠ ch.cd := by
+  intro a ha
+  have hx : x = na := by simpa using List.find?_some hf
+  have hmem := List.mem_of_find?_eq_some hf
+  have ha' := List.mem_filter.1 ha
+  have hne : a ≠ (x, ch, d, q) := by
+    intro heq
+    have : a.1 ≠ na := by simpa using ha'.2
+    rw [heq] at this
+    exact this hx
+  exact pairwise_mem_ne (fun _ _ h => Ne.symm h) hd ha'.1 hmem hne
+
+/-- `handle_auth_message`, invalid signature: the challenge taken out is put back. -/
+theorem CI.chs_readd {c R ss chs act eph cd H} (h : CI c R ss chs act eph cd H) {na x : NA} {ch : Challenge}
+    {d q : Nat} (hf : chs.find? (·.1 == na) = some (x, ch, d, q)) (d' q' : Nat) :
+    CI c R ss (chs.filter (·.1 != na) ++ [(na, ch, d', q')]) act eph cd H := by
+  have hmem := List.mem_of_find?_eq_some hf
+  refine h.key_mono (Nat.le_refl _) (Nat.le_refl _) ?_ ?_ ?_
+  · intro c' hc'
+    rcases List.mem_append.1 hc' with hc' | hc'
+    · exact Or.inl ⟨c', (List.mem_filter.1 hc').1, rfl⟩
+    · simp only [List.mem_singleton] at hc'; subst hc'
+      exact Or.inl ⟨_, hmem, rfl⟩
+  · intro c' hc'
+    rcases List.mem_append.1 hc' with hc' | hc'
+    · exact h.chOk c' (List.mem_filter.1 hc').1
+    · simp only [List.mem_singleton] at hc'; subst hc'
+      exact h.chOk (x, ch, d, q) hmem
+  · rw [List.pairwise_append]
+    refine ⟨h.chDist.sublist List.filter_sublist, List.pairwise_singleton _ _, fun a ha b hb => ?_⟩
+    simp only [List.mem_singleton] at hb; subst hb
+    exact chs_filter_ne h.chDist hf a ha
+
+/-- `handle_challenge`: a fresh ephemeral key is drawn; the initiator key made from it is reserved. -/
+theorem CI.eph_bump {c R ss chs act eph cd H} (h : CI c R ss chs act eph cd H) (knew : Key)
+    (ht : knew.toRcp = true) (he : knew.eph = mkName c (eph + 1)) :
+    CI c (knew :: R) ss chs act (eph + 1) cd H := by
+  have h' := h.key_mono (eph' := eph + 1) (Nat.le_succ _) (Nat.le_refl _) (fun ch hch => Or.inl ⟨ch, hch, rfl⟩)
+    h.chOk h.chDist
+  have hnew : ∀ k, KeyOld c chs eph cd k → k ≠ knew := by
+    intro k hk heq
+    obtain ⟨j, hj, hkj⟩ := hk.1 (heq ▸ ht)
+    rw [heq, he] at hkj
+    have := mkName_inj hkj
+    omega
+  refine { h' with res := ?_ }
+  intro k hk
+  rcases List.mem_cons.1 hk with rfl | hk
+  · refine ⟨⟨fun _ => ⟨eph + 1, Nat.le_refl _, he⟩, fun hf => (by rw [ht] at hf; cases hf)⟩, ?_, ?_⟩
+    · intro x hx; exact hnew _ (h.oldH x hx)
+    · intro e hes hke; exact hnew _ (h.oldS e hes _ hke) rfl
+  · exact h'.res k hk
+
+/-- `handle_auth_message`: the challenge for `na` is taken out; a responder key over its challenge data is
+reserved. -/
+theorem CI.take_ch {c R ss chs act eph cd H} (h : CI c R ss chs act eph cd H) {na x : NA} {ch : Challenge}
+    {d q : Nat} (hf : chs.find? (·.1 == na) = some (x, ch, d, q)) (knew : Key)
+    (ht : knew.toRcp = false) (hcd : knew.cd = ch.cd) :
+    CI c (knew :: R) ss (chs.filter (·.1 != na)) act eph cd H := by
+  have hmem := List.mem_of_find?_eq_some hf
+  have h' := h.chs_sublist (chs' := chs.filter (·.1 != na)) List.filter_sublist
+  have hnew : ∀ k, KeyOld c chs eph cd k → k ≠ knew := by
+    intro k hk heq
+    have := (hk.2 (heq ▸ ht)).2 _ hmem
+    rw [heq, hcd] at this
+    exact this rfl
+  refine { h' with res := ?_ }
+  intro k hk
+  rcases List.mem_cons.1 hk with rfl | hk
+  · refine ⟨⟨fun hf' => (by rw [ht] at hf'; cases hf'), fun _ => ⟨?_, ?_⟩⟩, ?_, ?_⟩
+    · rw [hcd]; exact h.chOk _ hmem
+    · rw [hcd]; exact chs_filter_ne h.chDist hf
+    · intro y hy; exact hnew _ (h.oldH y hy)
+    · intro e hes hke; exact hnew _ (h.oldS e hes _ hke) rfl
+  · exact h'.res k hk
 
 end Discv5.H.Cr
